@@ -40,10 +40,10 @@ Print Assumptions C01_commit_forward_only.
    no candidate any more).  Messages may be delayed, duplicated, reordered or lost; a snapshot
    install is the follower rule with the empty prefix (the ghost logs are never compacted).  [snd p] is the history of everything any node ever
    handed out: any two hand-outs at the same position, at any two moments, by any two nodes,
-   carry the same entry.  Unbounded nodes, terms, log lengths and steps; static voter set [vs]
+   carry the same entry.  Unbounded nodes, terms, log lengths and steps; static configuration: voters [vs] and, when it is joint, outgoing voters [vo] (a quorum is a majority of both, C10_joint_quorum_is_both_majorities)
    (membership change is outside this theorem and stays with the monitors of the cluster harness). *)
-Theorem C01_state_machine_safety_protocol : forall vs p m1 m2 j x y,
-  Safety.areach vs p -> In (m1, j, x) (snd p) -> In (m2, j, y) (snd p) -> x = y.
+Theorem C01_state_machine_safety_protocol : forall vs vo p m1 m2 j x y,
+  Safety.areach vs vo p -> In (m1, j, x) (snd p) -> In (m2, j, y) (snd p) -> x = y.
 Proof. exact Safety.state_machine_safety. Qed.
 Print Assumptions C01_state_machine_safety_protocol.
 
@@ -51,21 +51,21 @@ Print Assumptions C01_state_machine_safety_protocol.
    as committed, with the same value, after any further step of the network, as long as it still
    holds that position (a crash may cost it a not yet acknowledged suffix of its log; what it had
    handed to its state machine stays the committed value by C01_state_machine_safety_protocol) *)
-Theorem C01_committed_never_replaced : forall vs s s' m j t,
-  Safety.SInv vs s -> Safety.sstep vs s s' -> Safety.can_learn s m j t ->
+Theorem C01_committed_never_replaced : forall vs vo s s' m j t,
+  Safety.SInv vs vo s -> Safety.sstep vs vo s s' -> Safety.can_learn s m j t ->
   ((S j <= length (Safety.nlog s' m))%nat -> Safety.can_learn s' m j t) /\
   (forall x, Safety.cval s j x -> Safety.cval s' j x) /\
   (forall x y, Safety.cval s' j x -> Safety.cval s' j y -> x = y).
 Proof.
-  intros vs s s' m j t I S0 CL. split; [exact (Safety.can_learn_stable vs s s' m j t I S0 CL)|]. split.
-  - intros x. exact (Safety.cval_stable vs s s' j x I S0).
-  - intros x y. exact (Safety.cval_unique vs s' j x y (Safety.sinv_step vs s s' I S0)).
+  intros vs vo s s' m j t I S0 CL. split; [exact (Safety.can_learn_stable vs vo s s' m j t I S0 CL)|]. split.
+  - intros x. exact (Safety.cval_stable vs vo s s' j x I S0).
+  - intros x y. exact (Safety.cval_unique vs vo s' j x y (Safety.sinv_step vs vo s s' I S0)).
 Qed.
 Print Assumptions C01_committed_never_replaced.
 
 (* the premises are satisfiable: SafetyEx.safety_nonvacuous is an execution of three voters in
    which two nodes hand out the committed entry *)
 Theorem C01_protocol_nonvacuous :
-  exists p, Safety.areach SafetyEx.vs3 p /\ In (1, 0%nat, (1, 7)) (snd p) /\ In (2, 0%nat, (1, 7)) (snd p).
+  exists p, Safety.areach SafetyEx.vs3 [] p /\ In (1, 0%nat, (1, 7)) (snd p) /\ In (2, 0%nat, (1, 7)) (snd p).
 Proof. exact SafetyEx.safety_nonvacuous. Qed.
 Print Assumptions C01_protocol_nonvacuous.
